@@ -135,6 +135,20 @@ impl Lexer {
         }
     }
 
+    /// The last character of a literal that breaks off at `at` (a line break
+    /// or the end of the file): the character in front of it, on the same line.
+    fn literal_end(at: Position) -> Position {
+        if at.zero_idx_column() > 0 && at.raw_index() > 0 {
+            Position::new(
+                at.zero_idx_line(),
+                at.zero_idx_column() - 1,
+                at.raw_index() - 1,
+            )
+        } else {
+            at
+        }
+    }
+
     /// Get a range from the current character.
     ///
     /// This function will return the range of a token that consists of the
@@ -408,7 +422,16 @@ impl Iterator for Lexer {
                             Box::new(Token::new(
                                 TokenType::String(String::new()),
                                 String::new(),
-                                Range::new(start, e.pos),
+                                // A literal that breaks off ends with its last
+                                // character, not with the line break (or the end
+                                // of the file) behind it
+                                Range::new(
+                                    start,
+                                    match e.kind {
+                                        StringLexErrorType::InvalidEscapeSequence => e.pos,
+                                        _ => Self::literal_end(e.pos),
+                                    },
+                                ),
                                 self.source_id,
                             )),
                             Box::new(e),
@@ -451,7 +474,7 @@ impl Iterator for Lexer {
                                 c.to_string(),
                                 StringLexErrorType::Newline,
                                 start,
-                                self.get_pos(),
+                                Self::literal_end(self.get_pos()),
                             ))
                         }
                         // Otherwise, return the character as is
@@ -475,7 +498,10 @@ impl Iterator for Lexer {
                         }
 
                         // The character is unclosed
-                        let end = self.get_pos();
+                        let end = match eq {
+                            '\n' => Self::literal_end(self.get_pos()),
+                            _ => self.get_pos(),
+                        };
                         return Some(self.invalid_string(
                             c.to_string(),
                             StringLexErrorType::Unclosed,
@@ -485,7 +511,7 @@ impl Iterator for Lexer {
                     }
                 }
 
-                let end = self.get_pos();
+                let end = Self::literal_end(self.get_pos());
                 return Some(self.invalid_string(
                     String::new(), // Empty string, since we are at EOF
                     StringLexErrorType::Unclosed,
